@@ -82,10 +82,15 @@ def run_property(prop: str, tier: str, repo: str, overlay=None, *, write_evidenc
     project = Project(repo, overlay)
     views = [("raw", project)]
     if not os.environ.get("FORMULINT_RAW_ONLY"):
-        from .normalize import Normalizer
-        views.append(("normalised", Project(repo, overlay, normalizer=Normalizer(project))))
+        from .normalize import Normalizer, StatementNormalizer
+        nz = Normalizer(project)
+        views.append(("normalised", Project(repo, overlay, normalizer=nz)))
+        views.append(("normalised-statements", Project(repo, overlay, normalizer=StatementNormalizer(nz))))
+        views[-1][1].view = "normalised-statements"
         if os.environ.get("FORMULINT_NORMALISED_ONLY"):  # diagnostic: what do the rules make of the normal form alone?
-            views = views[1:]
+            views = views[1:2]
+        if os.environ.get("FORMULINT_STATEMENTS_ONLY"):
+            views = views[2:]
     known = load_known()
     mod = rules_pkg.load(prop)
     ctx = Ctx(prop, project, tier)
